@@ -171,13 +171,11 @@ func runC01(rep *vh.Report, r *vh.Rng, n int, thorough bool) {
 		oc := e.OnColumn(lab+fmt.Sprintf(" OnColumn pre=%s suf=%s", hx(pre), hx(suf)), ks, col)
 		rep.OracleChecks++
 		if !looksProtected {
+			// whatever surrounds the envelope: a false tag candidate in the prefix (e.g. a prefix ending in '%')
+			// must cost one byte only, the envelope is revealed in place and the suffix copied
 			want := append(append(append([]byte{}, pre...), x...), suf...)
-			// the oracle is only decisive when prefix+envelope cannot start an earlier candidate: tag-free prefix
-			if !bytes.Contains(append(append([]byte{}, pre...), '%', '%'), []byte("%%%")) {
-				if oc.Kind != "ok" || !(bytes.HasPrefix(oc.Vals[0], append(append([]byte{}, pre...), x...))) {
-					rep.Violate("column-roundtrip", "OnColumn did not reveal the envelope in place: "+oc.String()[:min(200, len(oc.String()))], lab+" col="+hex.EncodeToString(col))
-				}
-				_ = want
+			if oc.Kind != "ok" || !bytes.Equal(oc.Vals[0], want) {
+				rep.Violate("column-roundtrip", "OnColumn did not reveal the envelope in place: "+oc.String()[:min(200, len(oc.String()))], lab+" pre="+hex.EncodeToString(pre)+" col="+hex.EncodeToString(col))
 			}
 		}
 		// low-level pairs, byte exact with the tape
